@@ -11,6 +11,7 @@ open XV XV.Model
 inductive Out where
   | ok (ver : List Nat) (ts : Option Nat) (magic : Nat) (pypy : Bool) (size : Option Nat) (sip : Option Nat) (pos : Nat)
   | importError
+  | dropbox                        -- magic 62135: fix_dropbox_pyc inside try/except → returns or ImportError
   | escaped (cls : String)
   deriving DecidableEq, Repr
 
@@ -65,12 +66,9 @@ def load (tb : Tables) (data : Bytes) (pypy38name : Bool) : Out :=
   match tupleOf tb magicInt with
   | none => .importError                            -- unknown magic (incl. the Pyston message)
   | some tv =>
-    if interim.contains magicInt then
-      -- the message indexes `versions` with all four bytes
-      if (tb.versions.lookup magic4').isSome then .importError else .escaped "KeyError"
-    else if magicInt = 62135 then .escaped "dropbox"   -- fix_dropbox_pyc: not modelled here
-    else if magicInt = 62215 then
-      if (tb.versions.lookup magic4').isSome then .importError else .escaped "KeyError"
+    if interim.contains magicInt then .importError     -- "interim bytecode" message
+    else if magicInt = 62135 then .dropbox
+    else if magicInt = 62215 then .importError          -- "dropbox-hacked" message
     else
       let magicInt2 := leNat (magic4'.take 2)
       match tupleOf tb magicInt2 with
